@@ -18,6 +18,10 @@ source on disk is never touched; node positions are kept, so reports still point
      (``kw_to_pos``, needs the other modules' signatures and is therefore run by the loader after indexing);
   4. local closures used as plain helpers (``def reg(a, b): ...`` at the top of a function body, only ever called,
      after its definition, from the function's own scope) are inlined like private helpers (``Inliner._local_helpers``);
+  4b. a private helper that reads its ``**kw`` as a mapping (``d.update(kw)``) is inlined at calls that spell the extra
+     keywords out (no ``**m``): the mapping becomes the local ``kw = {'k': v, ..}`` (``Inliner._bind``); a private generator
+     that is one ``for`` loop ending in its only ``yield`` is fused with the ``for`` loop that consumes it
+     (``Inliner._expand_gen_loop``: ``for t in self._g(a): BODY`` -> ``for x in IT: PRE; t = v; BODY``);
   5. loops over a short literal tuple / list of *variables* (``for src in (self.resources, overrides): d.update(src)``)
      are unrolled (``Unroll``); loops over constants (slot-name tables) keep their shape.
 
@@ -435,11 +439,14 @@ def _eligible_def(fn):
     if a.kwarg is not None:
         # ``**kw`` is acceptable when the helper only passes it on (``g(.., **kw)``): the caller's mapping can then stand
         # for the copy the call would make -- nothing in the helper can tell the difference
+        # (a helper that uses its ``**kw`` in any other way -- ``d.update(kw)`` -- is followed only from calls that spell the
+        # extra keywords out: the mapping it receives is then the fresh dict ``{'k': v, ..}``, see Inliner._bind)
         kw = a.kwarg.arg
         passed = set(id(k.value) for n in ast.walk(fn) if isinstance(n, ast.Call) for k in n.keywords if k.arg is None and isinstance(k.value, ast.Name))
+        fn.vt_kw_general = False
         for n in ast.walk(fn):
             if isinstance(n, ast.Name) and n.id == kw and id(n) not in passed:
-                return None
+                fn.vt_kw_general = True
             if isinstance(n, ast.arg) and n.arg == kw and n is not a.kwarg:
                 return None
     kind = 'func'
@@ -594,6 +601,77 @@ def collect_context_managers(tree, anchors):
     return mod, cls
 
 
+# ---------------------------------------------------------------------------------------------- generators that are a loop head
+_LOOP_BODY = '__vt_loop_body__'
+
+
+def _loop_gen_shape(fn):
+    """A generator whose body is one ``for`` loop (no ``else``) whose last top-level statement is the function's only
+    ``yield`` (a statement: nothing is sent in), with no ``return`` and no ``break`` out of that loop: -> the loop."""
+    body = list(fn.body)
+    if body and isinstance(body[0], ast.Expr) and isinstance(body[0].value, ast.Constant) and isinstance(body[0].value.value, str):
+        body = body[1:]
+    if len(body) != 1 or not isinstance(body[0], ast.For) or body[0].orelse or not body[0].body:
+        return None
+    loop = body[0]
+    ys = [n for n in ast.walk(fn) if isinstance(n, (ast.Yield, ast.YieldFrom))]
+    last = loop.body[-1]
+    if len(ys) != 1 or not isinstance(ys[0], ast.Yield) or not (isinstance(last, ast.Expr) and last.value is ys[0]):
+        return None
+    if _contains_return(fn.body) or Unroll._loop_jumps_of(loop.body, (ast.Break,)):
+        return None
+    return loop
+
+
+def _eligible_loop_gen(fn, anchors):
+    if not isinstance(fn, ast.FunctionDef) or fn.name in anchors or not fn.name.startswith('_') or fn.name.startswith('__'):
+        return None
+    if any(not (isinstance(d, ast.Name) and d.id == 'staticmethod') for d in fn.decorator_list):
+        return None
+    if _loop_gen_shape(fn) is None:
+        return None
+    fake = copy.deepcopy(fn)
+    loop = _loop_gen_shape(fake)
+    y = loop.body[-1]
+    v = y.value.value
+    loop.body[-1] = ast.copy_location(ast.Expr(value=ast.Tuple(elts=[ast.Name(id=_LOOP_BODY, ctx=ast.Load())] + ([v] if v is not None else []),
+                                                                ctx=ast.Load())), y)
+    kind = _eligible_def(fake)
+    if kind is None or getattr(fake, 'vt_kw_general', False):
+        return None
+    return kind, fake
+
+
+def collect_loop_generators(tree, anchors):
+    mod, cls = {}, {}
+    counts = {}
+    for st in tree.body:
+        if isinstance(st, ast.ClassDef):
+            for m in st.body:
+                if isinstance(m, ast.FunctionDef):
+                    counts[m.name] = counts.get(m.name, 0) + 1
+    for st in tree.body:
+        if isinstance(st, ast.FunctionDef):
+            r = _eligible_loop_gen(st, anchors)
+            if r is not None and r[0] == 'func':
+                h = Helper(r[1], 'func')
+                h.orig = st
+                mod[st.name] = h
+        elif isinstance(st, ast.ClassDef):
+            for m in st.body:
+                r = _eligible_loop_gen(m, anchors) if isinstance(m, ast.FunctionDef) else None
+                if r is not None and counts.get(m.name) == 1:
+                    h = Helper(r[1], 'method' if r[0] == 'func' else r[0], st.name)
+                    h.orig = m
+                    cls[(st.name, m.name)] = h
+    for st in ast.walk(tree):
+        if isinstance(st, ast.Assign):
+            for t in st.targets:
+                if isinstance(t, ast.Name):
+                    mod.pop(t.id, None)
+    return mod, cls
+
+
 # ---------------------------------------------------------------------------------------------- private classes used as records
 def _self_fields_assigned(stmts):
     """Fields ``self.f`` assigned on every path through this statement list that completes normally."""
@@ -705,6 +783,7 @@ class Inliner(object):
         # foreign(name) -> True when another module of the analysed tree mentions ``name`` (None: unknown, assume it does)
         self.foreign = foreign
         self.cm_mod, self.cm_cls = collect_context_managers(tree, anchors)
+        self.gen_mod, self.gen_cls = collect_loop_generators(tree, anchors)
         self.obj_classes = collect_object_classes(tree, anchors) if foreign is not None else {}
         self.used = set()           # ids of helper definitions expanded at least once
         self.shared_names = set()   # locals standing for the fields of a dissolved object: never renamed
@@ -804,7 +883,8 @@ class Inliner(object):
             # f(a, **kw) is followed only into a helper that itself declares ``**kw`` as a pure pass-through (see
             # _eligible_def) and when the mapping is a plain name
             h, recv = self._helper_of_plain(call, cls_name)
-            if h is None or h.node.args.kwarg is None or len(stars) != 1 or not isinstance(stars[0].value, ast.Name):
+            if h is None or h.node.args.kwarg is None or len(stars) != 1 or not isinstance(stars[0].value, ast.Name) or \
+                    getattr(h.node, 'vt_kw_general', False):
                 return None, None
             return h, recv
         return self._helper_of_plain(call, cls_name)
@@ -864,6 +944,13 @@ class Inliner(object):
                     continue
                 raise CannotInline('bad keyword %s' % k.arg)
             binding[k.arg] = k.value
+        kw_general = kwparam is not None and getattr(fn, 'vt_kw_general', False)
+        if kw_general:
+            # the helper reads its ``**kw`` as a mapping: the call spells every extra keyword out (no ``**m``, see _helper_of),
+            # so that mapping is the fresh dict of exactly these items, in the order written -- bound to a local of its own below
+            if kwparam in binding:
+                raise CannotInline('** argument for a ** parameter that is read as a mapping')
+            binding[kwparam] = ast.Dict(keys=[ast.Constant(value=e.arg) for e in extra_kws], values=[copy.deepcopy(e.value) for e in extra_kws])
         if kwparam is not None and kwparam not in binding:
             binding[kwparam] = ast.Dict(keys=[], values=[])      # no extra keywords given: ``**{}``
         for p in params + kwonly:
@@ -903,7 +990,7 @@ class Inliner(object):
                 rename[n] = new
                 taken.add(new)
         mapping, pre = {}, []
-        if kwparam is not None:
+        if kwparam is not None and not kw_general:
             mapping[kwparam] = ast.Name(id=_KW_PASS, ctx=ast.Load())      # only ever read as ``**kw``: see below
         for p in params + kwonly:
             v = binding[p]
@@ -919,9 +1006,18 @@ class Inliner(object):
                 pre.append(ast.copy_location(ast.Assign(targets=[ast.Name(id=tgt, ctx=ast.Store())], value=copy.deepcopy(v)), call))
             else:
                 mapping[p] = v
+        if kw_general:
+            tgt = kwparam
+            if tgt in taken:
+                tgt = kwparam + '_'
+                while tgt in taken or tgt in stored:
+                    tgt += '_'
+            taken.add(tgt)
+            rename[kwparam] = tgt
+            pre.append(ast.copy_location(ast.Assign(targets=[ast.Name(id=tgt, ctx=ast.Store())], value=binding[kwparam]), call))
         sub = _Subst(mapping, rename)
         body = [sub.visit(s) for s in body]
-        if kwparam is not None:
+        if kwparam is not None and not kw_general:
             # ``g(.., **kw)`` in the helper: the caller's explicit extra keywords, then the caller's own ``**mapping``
             real = binding[kwparam]
             empty = isinstance(real, ast.Dict) and not real.keys
@@ -1039,6 +1135,61 @@ class Inliner(object):
             raise CannotInline('yield position lost')
         self.used.add(id(h.orig))
         return pre + body
+
+    # -- ``for t in gen(..): BODY`` for a generator of this module that is one loop ending in its yield -----------
+    def _expand_gen_loop(self, s, cls_name, caller_names):
+        """``for t in self._g(a): BODY`` where ``_g`` is ``for x in IT: PRE; yield v`` (see _loop_gen_shape) is the loop
+        ``for x in IT: PRE; t = v; BODY``: the consumer asks for the next item exactly when BODY has finished (or continued),
+        which is when the generator resumes behind its yield -- the end of its loop body -- and takes the next ``x``; a
+        ``continue`` in PRE skips to the next ``x`` in both; ``break`` / ``return`` / an exception in BODY abandon the suspended
+        generator, which has no ``try`` around the yield and hence nothing left to run; the loops end together (``else``).
+        The arguments are evaluated where the call stood; what the generator reads of the caller by reference must not be
+        re-bound by BODY (the generator would keep the old object)."""
+        call = s.iter
+        if not isinstance(call, ast.Call) or any(isinstance(a, ast.Starred) for a in call.args) or any(k.arg is None for k in call.keywords):
+            return None
+        f = call.func
+        h, recv = None, None
+        if isinstance(f, ast.Name) and f.id in self.gen_mod and f.id not in self.shadowed:
+            h = self.gen_mod[f.id]
+        elif isinstance(f, ast.Attribute) and isinstance(f.value, ast.Name) and f.value.id in ('self', 'cls') and cls_name is not None:
+            h = self._inherited_helper(cls_name, f.attr, self.gen_cls)
+            recv = f.value
+        if h is None:
+            return None
+        body_stored = _stored_names(s.body) | set(n.id for n in ast.walk(s.target) if isinstance(n, ast.Name))
+        attr_stored = set(n.attr for st in s.body for n in ast.walk(st) if isinstance(n, ast.Attribute) and isinstance(n.ctx, (ast.Store, ast.Del)))
+        for a in list(call.args) + [k.value for k in call.keywords] + ([recv] if recv is not None else []):
+            if isinstance(a, ast.Constant):
+                continue
+            for n in ast.walk(a):
+                if isinstance(n, ast.Name) and n.id in body_stored:
+                    raise CannotInline('the loop body re-binds %s, which the generator received' % n.id)
+                if isinstance(n, ast.Attribute) and n.attr in attr_stored:
+                    raise CannotInline('the loop body stores an attribute the generator received (.%s)' % n.attr)
+        pre, body = self._bind(h, call, recv, caller_names, None)
+        if len(body) != 1 or not isinstance(body[0], ast.For):
+            raise CannotInline('generator shape lost')
+        loop = body[0]
+        mark = loop.body[-1]
+        if not (isinstance(mark, ast.Expr) and isinstance(mark.value, ast.Tuple) and mark.value.elts and
+                isinstance(mark.value.elts[0], ast.Name) and mark.value.elts[0].id == _LOOP_BODY):
+            raise CannotInline('yield position lost')
+        v = mark.value.elts[1] if len(mark.value.elts) > 1 else ast.copy_location(ast.Constant(value=None), s)
+        target = s.target
+        assigns = None
+        if isinstance(target, ast.Tuple) and isinstance(v, ast.Tuple) and len(target.elts) == len(v.elts) and \
+                not any(isinstance(e, ast.Starred) for e in target.elts + v.elts):
+            tnames = set(n.id for e in target.elts for n in ast.walk(e) if isinstance(n, ast.Name))
+            vnames = set(n.id for e in v.elts for n in ast.walk(e) if isinstance(n, ast.Name))
+            if not (tnames & vnames):
+                assigns = [ast.copy_location(ast.Assign(targets=[t], value=e), s) for t, e in zip(target.elts, v.elts)]
+        if assigns is None:
+            assigns = [ast.copy_location(ast.Assign(targets=[target], value=v), s)]
+        new = ast.copy_location(ast.For(target=loop.target, iter=loop.iter, body=loop.body[:-1] + assigns + list(s.body),
+                                        orelse=list(s.orelse), type_comment=None), s)
+        self.used.add(id(h.orig))
+        return pre + [new]
 
     # -- objects of private record classes that never leave the function creating them --------------------
     def _dissolve_objects(self, fn):
@@ -1208,6 +1359,10 @@ class Inliner(object):
         try:
             if isinstance(s, ast.With):
                 rep = self._expand_with(s, cls_name, caller_names)
+                if rep is not None:
+                    return rep
+            if isinstance(s, ast.For):
+                rep = self._expand_gen_loop(s, cls_name, caller_names)
                 if rep is not None:
                     return rep
             if isinstance(s, ast.Return) and isinstance(s.value, ast.Call):
@@ -1465,10 +1620,14 @@ class Unroll(ast.NodeTransformer):
 
     @staticmethod
     def _loop_jumps(body):
+        return Unroll._loop_jumps_of(body, (ast.Break, ast.Continue))
+
+    @staticmethod
+    def _loop_jumps_of(body, kinds):
         todo = list(body)
         while todo:
             n = todo.pop()
-            if isinstance(n, (ast.Break, ast.Continue)):
+            if isinstance(n, kinds):
                 return True
             if isinstance(n, (ast.For, ast.While, ast.AsyncFor)):
                 todo.extend(n.orelse)      # break/continue in a nested loop's body belong to that loop
